@@ -200,7 +200,7 @@ def eval_monad_groupby(a, backend):
 
     """
     arr = backend.kg_asarray(a)
-    if backend.array_size(arr) == 0:
+    if len(arr) == 0:
         return arr
     if arr.ndim == 1:
         try:
